@@ -1,11 +1,14 @@
 // fragment: canister/src/api/get_utxos.rs (stability count, bound check, prefix walk), get_balance.rs (walk) — C04 C05 C02 C06
 
 impl<'a, Block> BlockChain<'a, Block> {
-    // [trusted:assumed-contract] BlockChain::into_chain (blocktree.rs:126, `Vec::extend` with an iterator is outside vstd): the chain as a vector, first block first
-    #[verifier::external_body]
-    fn into_chain(self) -> (r: Vec<&'a Block>)
-        ensures deref_seq(r@) =~= self@,
-    { unimplemented!() }
+// BlockChain::into_chain (blocktree.rs:126). R20: `v.extend(w)` with a Vec `w` => `let mut vp_w = w; v.append(&mut vp_w)` (Vec::extend
+// with a generic IntoIterator has no vstd specification; for a Vec source it appends its elements in order)
+//@extract file=canister/src/blocktree.rs in="impl<'a, Block> BlockChain<'a, Block>" item="fn into_chain" props=C02,C04,C05,C07
+//@ ret r
+//@ rewrite R20 "chain\.extend\(self\.successors\);" => "let mut vp_successors = self.successors;\n        chain.append(&mut vp_successors);"
+//@ spec
+//@| ensures deref_seq(r@) =~= self@,
+//@end
 }
 
 // the per-height rows of the unstable tree (proved in fragment rows.tpl to be what block_hashes_with_depths_by_heights returns)
